@@ -86,6 +86,20 @@ Theorem C03_executed_is_current_voter : forall C nonce key power required ops o 
 Proof. exact executed_along_history. Qed.
 Print Assumptions C03_executed_is_current_voter.
 
+(* ... and it is backed by a quorum: for EVERY interleaving of votes over any event nonces (votes for n+1 may arrive and
+   reach quorum power before n is observed; each oracle votes its nonces in order), whatever is executed at a nonce is the
+   current voter's object, sits in an attestation all of whose votes carry the same nonce and pre-image, cast by pairwise
+   distinct oracles whose powers sum to at least the required power *)
+Theorem C03_executed_by_quorum : forall C nonce key power required ops o c st' e,
+  (forall o', 0 <= power o') ->
+  vote C nonce key power required (fst (run C nonce key power required (init C) ops)) o c = (st', Executed e) ->
+  e = c /\
+  exists a, In a (atts C st') /\ a_observed C a = true /\ In (o, c) (a_votes C a) /\
+            (forall o' c', In (o', c') (a_votes C a) -> nonce c' = nonce e /\ key c' = key e) /\
+            NoDup (map fst (a_votes C a)) /\ required <= sum_power C power (a_votes C a).
+Proof. exact executed_by_quorum. Qed.
+Print Assumptions C03_executed_by_quorum.
+
 Theorem C03_executed_is_voted : forall sp power required ops o c st' e,
   injective sp ->
   Forall (fun oc => wf sp (snd oc)) ops -> wf sp c ->
